@@ -8,6 +8,7 @@ import (
 	"io"
 
 	astits "github.com/asticode/go-astits"
+	"verif/mc"
 )
 
 // DmxOut is everything a caller observes when it drains a Demuxer with NextData.
@@ -25,6 +26,7 @@ type DmxOut struct {
 // waited for.
 func DrainData(d *astits.Demuxer, inputLen int) (o *DmxOut) {
 	o = &DmxOut{}
+	defer mc.Guard(func() any { return fmt.Sprintf("NextData loop over an input of %d bytes", inputLen) })()
 	defer func() {
 		if r := recover(); r != nil {
 			o.Panic = r
@@ -73,6 +75,7 @@ type PktOut struct {
 
 func DrainPackets(d *astits.Demuxer, inputLen int) (o *PktOut) {
 	o = &PktOut{}
+	defer mc.Guard(func() any { return fmt.Sprintf("NextPacket loop over an input of %d bytes", inputLen) })()
 	defer func() {
 		if r := recover(); r != nil {
 			o.Panic = r
